@@ -2,7 +2,7 @@
 \* TLC's counterexample to EventsOnceAndCausal is the behaviour replayed against the real adapter.
 SPECIFICATION Spec
 CONSTANTS
-  MaxReq = 5
+  MaxReq = 6
   Universe <- UniverseE
   QMaxEv = 0
   PreLines = 0
